@@ -187,16 +187,33 @@ func genC15(env *core.Env, emit func(core.Case)) {
 					stopAt = 1 + r.IntN(len(full))
 				}
 				cnt := 0
-				for range seq {
-					cnt++
-					if cnt >= stopAt {
-						break
+				func() {
+					defer func() {
+						if rec := recover(); rec != nil {
+							w = fmt.Sprintf("abandoning the enumeration after %d targets panicked: %v", stopAt, rec)
+						}
+					}()
+					for range seq {
+						cnt++
+						if cnt >= stopAt {
+							break
+						}
 					}
-				}
+				}()
 				for pass := 2; pass <= 3 && w == ""; pass++ {
 					var again []ech.Target
-					for t := range seq {
-						again = append(again, t)
+					func() {
+						defer func() {
+							if rec := recover(); rec != nil {
+								w = fmt.Sprintf("pass %d over the same sequence panicked: %v", pass, rec)
+							}
+						}()
+						for t := range seq {
+							again = append(again, t)
+						}
+					}()
+					if w != "" {
+						break
 					}
 					if !reflect.DeepEqual(again, full) && !(len(again) == 0 && len(full) == 0) {
 						w = fmt.Sprintf("pass %d over the same sequence yields %d targets (%s), a fresh enumeration yields %d", pass, len(again), targetsText(again), len(full))
@@ -210,20 +227,33 @@ func genC15(env *core.Env, emit func(core.Case)) {
 				idx++
 				var got []ech.Target
 				cnt := 0
+				panicked := ""
 				if k > 0 {
-					for t := range res.Targets(network) {
-						got = append(got, t)
-						cnt++
-						if cnt >= k {
-							break
+					func() {
+						defer func() {
+							if rec := recover(); rec != nil {
+								panicked = fmt.Sprint(rec)
+							}
+						}()
+						for t := range res.Targets(network) {
+							got = append(got, t)
+							cnt++
+							if cnt >= k {
+								break
+							}
 						}
-					}
+					}()
 				}
 				out := targetsText(got)
+				if panicked != "" {
+					out = "panic " + panicked
+				}
 				ops := []core.Op{{Line: fmt.Sprintf("targets %s %s %d", network, args, k), Kind: 'M', Want: out, Note: "Targets(network), stopped after k"},
 					{Line: fmt.Sprintf("targets-spec %s %s %d %s", network, args, k, out), Kind: 'S', Note: "targets == TargetsSpec (declarative rules), k-prefix"}}
 				w := ""
-				if k <= len(full) && !reflect.DeepEqual(got, full[:k]) && !(k == 0 && len(got) == 0) {
+				if panicked != "" {
+					w = fmt.Sprintf("stopping the enumeration after %d targets panicked: %s", k, panicked)
+				} else if k <= len(full) && !reflect.DeepEqual(got, full[:k]) && !(k == 0 && len(got) == 0) {
 					w = "stopping after k does not yield the k-prefix of the full enumeration"
 				}
 				ops = append(ops, core.Op{Kind: 'X', Note: "early termination yields a prefix", Want: w})
